@@ -5,6 +5,7 @@ import (
 	"context"
 	"sync"
 
+	"github.com/sboehler/knut/lib/common/verif"
 	"github.com/sourcegraph/conc/pool"
 )
 
@@ -13,6 +14,7 @@ import (
 // has been canceled.
 func Pop[T any](ctx context.Context, ch <-chan T) (T, bool, error) {
 	var res T
+	verif.Yield("pop")
 	select {
 	case d, ok := <-ch:
 		return d, ok, ctx.Err()
@@ -25,6 +27,7 @@ func Pop[T any](ctx context.Context, ch <-chan T) (T, bool, error) {
 // has been canceled.
 func Push[T any](ctx context.Context, ch chan<- T, ts ...T) error {
 	for _, t := range ts {
+		verif.Yield("push")
 		select {
 		case <-ctx.Done():
 			return ctx.Err()
